@@ -83,6 +83,14 @@ TEXT = {
                      "runs, graceful restarts, kills and downtime on the real engines with the real TtlLease; expiry and survival are judged "
                      "with a 1 s slack around each deadline.",
             "note": "Snapshot install of TTL state is not covered here (cluster runs use MemSm)."},
+    "C24": {"level": _E1 + "Scenario 'watch': 1-5 watcher tasks per run on the real WatchRegistry/WatchDispatcher of real nodes (exact and "
+                           "'/'-terminated prefix watchers, with and without prev_kv, slow consumers, handles dropped mid-run), small "
+                           "event_queue_size / watcher_buffer_size so that both overflow kinds occur, apply stalls that release bursts, "
+                           "Progress heartbeats on. Per watcher, against the apply ledger of the watched node incarnation: every data event "
+                           "is an applied put/delete/successful CAS on a matching key with revision = index and the applied value, "
+                           "revisions strictly increase, no event for a failed CAS, nothing after CANCELED, no data event at or below a "
+                           "Progress revision, and the events since registration are a gap-free prefix of the matching applied changes "
+                           "(complete if the stream is still open at the end of the quiet period).", "note": _N1},
     "C26": {"level": _E1 + "Every 25 virtual ms: for every two live nodes that are voters in their own view, no majority of one view is "
                            "disjoint from a majority of the other (closed form over the two voter sets).", "note": _N1},
     "C27": {"level": _E1 + "No vote request or granted vote ever originates from a node whose role is Learner; learners' ACKs are never "
@@ -121,7 +129,6 @@ TEXT = {
 
 NOT_CLAIMED = {
     "C17": "not claimed yet: the snapshot-stream mutation harness (E3) is not built",
-    "C24": "not claimed yet: the watch harness (E3) is not built",
     "C25": "not claimed yet: the scan/apply interleaving harness is not built",
     "C34": "not applicable: RaftConfig::validate() is a pure function of numbers - no schedule, clock, fault or interleaving for a simulator to decide (DESIGN.md §12)",
 }
